@@ -93,3 +93,8 @@ chk("C13",
     "Trusted: text parser in props/c13.py; PyUCIS is part of the system under test as used by vsc. Type/instance names are compared by typename and by content (instances as multisets).",
     "explicit-state BFS with a differential oracle between four representations at every state",
     "DESIGN.md section 3 C13")
+chk("C09",
+    "Configurations and interleavings, each fully enumerated over 5 scenarios x 2 seeds x 5 calls: (a) one subprocess per PYTHONHASHSEED in {0..7, 2^32-1} (quick: 4 of them); (b) every subset (quick: sizes 1,2,5) of call boundaries x 4 kinds of unrelated activity; (c) all 8 debug/solve_fail_debug/srcinfo settings; (d) every permutation of hash values of model objects (fields, constraints, rand sets) for 6 (quick: 5, every 2nd) objects plus a rotation family - exhaustive stand-in for memory layout; (e) snapshot at every step i, restore at every later step j after j calls, two replays per snapshot, aliasing checks for get_randstate/set_randstate; (f) global random.seed fixes the sequence. Oracle: all transcripts of one scenario are equal.",
+    "PYTHONHASHSEED values are a bounded configuration set (not all 2^32). Boolector determinism for a fixed assertion order is part of what is observed.",
+    "exhaustive enumeration of configurations / interleavings / hash-order permutations with a transcript-equality oracle",
+    "DESIGN.md section 3 C09")
